@@ -1353,7 +1353,12 @@ class Scheduler:
         ):
             if self.pool.tasks_to_trigger_now:
                 # manually triggered tasks to run now.
-                pre_prep_tasks.update(self.pool.tasks_to_trigger_now)
+                pre_prep_tasks.update(
+                    itask
+                    for itask in self.pool.tasks_to_trigger_now
+                    # (may have been submitted already, see below)
+                    if itask.waiting_on_job_prep
+                )
                 self.pool.tasks_to_trigger_now = set()
 
             if not self.is_paused:
